@@ -149,6 +149,8 @@ def run(ctx):
             )
     flows_oracle(ctx)
     from harness import bijinv
+    from harness import flowcases
+    flowcases.int_dtype_unit(ctx, "C01", bijections=True)
     from harness import autoreg
     autoreg.run_units(ctx, theorems=False)  # real MaskedAutoregressive / Coupling layers (conditioner MLP included) vs Model/AutoregNet.v
     bijinv.run_units(ctx)  # combinator trees: exact round trips + opposite log-dets, real flowjax vs extracted Model/Bij.v
